@@ -15,6 +15,11 @@ func (op *FsTxn) commitWait(wait bool) bool {
 	verifEv(3, op, verifB(wait))
 	ok := op.Atxn.Op.CommitWait(wait)
 	verifEv(4, op, verifB(ok))
+	if !ok {
+		// nothing was written: undo as for an abort
+		op.Abort()
+		return false
+	}
 	op.postCommit()
 	return ok
 }
@@ -49,6 +54,11 @@ func (op *FsTxn) CommitFh() bool {
 // buffers that need to be written to log. So, call commit.
 func (op *FsTxn) Abort() bool {
 	verifEv(5, op, 0)
+	// cached inodes (and their name caches) may have been modified in
+	// place; forget them so that the next user reads the committed state
+	for _, ip := range op.inodes {
+		op.Fs.Icache.LookupSlot(uint64(ip.Inum)).Obj = nil
+	}
 	op.releaseInodes()
 	op.Atxn.PostAbort()
 	return true
